@@ -293,9 +293,25 @@ theorem child_window_clip (win : Win) (col row : Int) (s : Surface) (x y : Int) 
   rw [VaxisModel.Lemmas.Window.origin_eq_absOrigin]
   exact VaxisModel.Lemmas.Window.covers_new win col row _ _ (Int.natCast_nonneg _) (Int.natCast_nonneg _) x y
 
+theorem cellOpsFrom_positions (w : UInt16) (buf : List Cell) (i0 i : Nat) (hi : i < buf.length) :
+    (cellOpsFrom w i0 buf)[i]? =
+      some { col := Int.ofNat ((i0 + i) % w.toNat), row := Int.ofNat ((i0 + i) / w.toNat), cell := buf[i] } := by
+  induction buf generalizing i0 i with
+  | nil => simp at hi
+  | cons c rest ih =>
+    cases i with
+    | zero => simp [cellOpsFrom]
+    | succ j =>
+      simp only [cellOpsFrom, List.getElem?_cons_succ, List.getElem_cons_succ]
+      have := ih (i0 + 1) j (by simpa using hi)
+      rw [this]
+      have e : i0 + 1 + j = i0 + (j + 1) := by omega
+      rw [e]
+
 theorem cellOps_positions (w : UInt16) (buf : List Cell) (i : Nat) (hi : i < buf.length) :
     (cellOps w buf)[i]? = some { col := Int.ofNat (i % w.toNat), row := Int.ofNat (i / w.toNat), cell := buf[i] } := by
-  simp [cellOps, hi]
+  have := cellOpsFrom_positions w buf 0 i hi
+  simpa [cellOps] using this
 
 mutual
 /-- The spec's view of a model surface tree. -/
@@ -316,7 +332,7 @@ def render_paints_full : Prop :=
     render s (Win.ofScreen scr) scr = .ok scr' →
     ∀ x y, inScreen scr x y →
       scr'.get x y =
-        match Spec.Surface.topAt (Spec.Surface.layers 64 false (toTree 0 0 0 s) 0 0
+        match Spec.Surface.topAt (Spec.Surface.layers false (toTree 0 0 0 s) 0 0
             { x0 := 0, y0 := 0, x1 := scr.cols, y1 := scr.rows }) x y with
         | some c => some c
         | none => scr.get x y
